@@ -94,8 +94,9 @@ def angle_input(name, lo="0"):
 
 class Case:
     def __init__(self, name, inputs, run, ref, pre=None, timeout=60, tol=1e-6, signature=None, desc="",
-                 maxpaths=64, hints=None, abs_tol=1e-9, maxdepth=None, extra_assumptions=None, use_nf=True):
+                 maxpaths=64, hints=None, abs_tol=1e-9, maxdepth=None, extra_assumptions=None, use_nf=True, extra_points=None):
         self.use_nf = use_nf
+        self.extra_points = extra_points or []
         self.maxdepth = maxdepth
         self.extra_assumptions = extra_assumptions
         self.name, self.inputs, self.run, self.ref, self.pre = name, inputs, run, ref, pre
@@ -232,6 +233,10 @@ class Case:
                 if spec[1] == "timeof":
                     p[spec[0]] = p[spec[2]["angle"]] / p[spec[2]["rate"]]
             cands.append(p)
+        for ep in self.extra_points:       # harness-supplied concrete points of the counterexample's class (consulted last)
+            q = dict(base)
+            q.update(ep)
+            cands.append(q)
         for idx, v in enumerate(cands):
             env = Env(False)
             try:
